@@ -62,30 +62,30 @@ CLAIMED = {
             "DESIGN.md section 5, C07; section 9"),
     "C10": (PBT + " over generated stream histories (model-based generation: the generator keeps a running model of the symbol-ID space); reference-model oracle (independent reference decoders resolve the same bytes; cross-checked against the running model)",
             "Exploration: 60 000 generated histories per quick run (2-12 events: version markers, replacing tables with 0-2 imports resolved against a catalog holding the exact / a newer / an older / no version and max_id absent / 0 / exact / smaller / larger, appending tables, user values using any ID that carries the wanted text, placeholder slots, $0, table-shaped structs below top level), rendered in binary and in text with $n spellings; ion-go must return the reference resolution, the right number of user values, the right SymbolTable().MaxID() after every value, and an error exactly for an unresolvable import.",
-            "Undefined local slots (null / non-string elements of symbols) and gaps in shared tables are not generated: ion-go deliberately represents them as the text \"\" (DESIGN C09/C10), which the statement does not cover. Duplicate imports / symbols fields and typed nulls in table fields are not generated (C06). Trusts the reference decoders and the running model (which must agree, else exit 2).",
+            "Undefined local slots (null / null.string / non-string elements of symbols) and placeholder slots of imports occupy IDs and count towards MaxID but are never referenced by a user value: ion-go deliberately represents their text as \"\" (DESIGN 13.3), which the statement does not cover. Open content (also under field names without text) is generated in tables and import descriptors. Duplicate imports / symbols fields and typed nulls in table fields are not generated (C06). Trusts the reference decoders and the running model (which must agree, else exit 2).",
             "DESIGN.md section 5, C10; section 9.3"),
     "C11": (PBT + "; reference-decoder oracle over the emitted bytes (declared imports, ID minimality, local-symbol minimality, resolvability with and without the catalog) + writer-call outcome oracle for fixed tables",
             "Exploration: 48 000 (entry point, shared tables, fixed locals, values) cases per quick run over NewBinaryWriter(ssts), NewBinaryWriterLST, MarshalBinary(ssts) and MarshalBinaryLST with 0-3 shared tables (overlapping text, system-symbol text, Adjust-ed max_id), symbols drawn half from inside and half from outside the tables; the reference decoder checks imports (name, version, max_id, order), lowest-ID use, no redundant / duplicate / unused local symbol, decodability with and without the catalog and value equality (also through ion-go's reader with the catalog); for fixed tables the first call that consumes outside text must fail, all later calls fail, earlier ones succeed and the bytes hold exactly the completed values.",
-            "The empty text is exempt from the by-name / minimality assertions (never indexed by name, by design). $n-shaped text is not used. Trusts the reference decoder.",
+            "The empty text is exempt from the by-name / minimality assertions (never indexed by name, by design). $n-shaped text is used for field names, annotations and WriteSymbol tokens, not through WriteSymbolFromString (which documents it as a symbol ID). A quarter of the writer cases hand over tokens that carry a symbol ID from an unrelated table next to their text (the text decides). Trusts the reference decoder.",
             "DESIGN.md section 5, C11"),
     "C16": (PBT + " over randomly assembled Go types (reflect.StructOf) and type-directed values; oracles: determinism, the independent reference decoders on MarshalText / MarshalBinary output against the harness's own reflection walk of the documented mapping, and the Marshal/Unmarshal round trip under semantic equality",
             "Exploration: 120 000 (type, value, by value / by pointer) cases per quick run: types assembled from every supported kind with nesting <= 4, embedded structs, tag options (rename, omitempty, -, symbol, clob, sexp, annotations wrapper), three declared shapes (embedded pointer, unexported embedded struct, named scalar types); values with boundary numbers per width, NaN / infinities, nil versus empty collections, nil / non-nil pointers, interfaces holding scalars / slices / maps, time.Time in UTC / named / unnamed zones. Checks MarshalText determinism, that text and binary output denote exactly the documented mapping (reference decoders), and that Unmarshal of each into the same type gives a semantically equal value.",
-            "Semantic equality: NaN = NaN; nil and empty slice / map / []byte, and a pointer to such a value versus a nil pointer, are interchangeable; interface{} contents and time.Time are compared by denotation / instant. Not generated: annotation wrappers around structs, maps or pointers and annotated nulls (outside the documented wrapper shapes), shadowed field names (ion-go panics by design), non-string map keys. Trusts the harness's reflection walk and the reference decoders.",
+            "Semantic equality: NaN = NaN; a field holding a nil / empty collection and an absent field are interchangeable (omitempty), as are a pointer to a nil collection and a nil pointer; interface{} contents and time.Time are compared by denotation / instant. Outside omitempty fields and interfaces, nil versus empty is compared for every slice and map (Marshal writes null and [] / {} respectively, Unmarshal gives back nil and empty). Not generated: annotation wrappers around structs, maps or pointers and annotated nulls (outside the documented wrapper shapes), shadowed field names (ion-go panics by design), non-string map keys. Trusts the harness's reflection walk and the reference decoders.",
             "DESIGN.md section 5, C16"),
     "C17": (PBT + " + exhaustive (value exemplar x target type x format x entry point) matrix; reference conversion table with must-store / must-error / either verdicts as oracle, stored values described by the harness's own reflection walk",
             "Exploration with an exhaustive sub-grid: ~125 exemplar Ion values (29 integer boundaries to 2^128, every typed null, float32/64 boundaries, symbols with and without text, lobs, lists / sexps / structs incl. mixed and out-of-range elements) x 75 target types (every integer width, floats, string, []byte, [4]byte, Timestamp, time.Time, Decimal, big.Int, SymbolToken, interface{}, a non-empty interface, pointer / slice / array / map / struct / annotation-wrapper shapes) x {UnmarshalString text, Unmarshal binary, Decoder.DecodeTo} = ~30 000 cells, plus 40 000 random (value, target) pairs and 12 000 Decoder streams per quick run (n values in order, then ErrNoInput thrice).",
             "Verdict 'either' (error or the natural result, both accepted) is used for typed nulls leaving the zero value, surplus list elements / lob bytes for fixed-size arrays, float into Decimal, the case-insensitive field-name fallback and annotated structs into a wrapper. Trusts the conversion table and the reflection walk.",
             "DESIGN.md section 5, C17"),
-    "C18": (PBT + " over generated multi-goroutine workloads run under the Go race detector (test binary built with -race, GORACE=halt_on_error=1); differential oracle: every operation's result in the concurrent run equals its result in a sequential run",
-            "Exploration with the race detector as monitor: per quick run 1200 generated workloads (2-32 goroutines x 1-8 operations over 12 operation kinds sharing three SharedSymbolTables, their Adjust-ed copies, a Catalog, the system table, one fixed local symbol table, one struct type and a per-workload fresh struct type) plus every pair of operation kinds with two goroutines each; the concurrent phase runs first on fresh shared objects so lazily built state is built under contention; results must be byte-identical to a sequential run.",
+    "C18": (PBT + " over generated multi-goroutine workloads run under the Go race detector (test binary built with -race, GORACE=halt_on_error=1); differential oracle: every operation's result in the concurrent run equals its result when its goroutine's script runs alone on fresh objects and fresh per-workload Go types",
+            "Exploration with the race detector as monitor: per quick run 1200 generated workloads (2-32 goroutines x 1-8 operations over 15 operation kinds sharing three SharedSymbolTables, their Adjust-ed copies, a Catalog, the system table, one fixed local symbol table, a table whose SymbolTableBuilder keeps growing, a token list with spare capacity handed to Writer.Annotations, a document with two lobs above 64 KiB, one struct type, a per-workload fresh struct type and a per-workload annotation-wrapper type decoded from accepted and refused documents) plus every pair of operation kinds with two goroutines each; the concurrent phase runs first on fresh shared objects so lazily built state is built under contention; results must be byte-identical to each script run alone.",
             "Schedules are sampled, not enumerated: the race detector flags conflicting unsynchronised accesses that both occur in a run regardless of timing, but not a synchronised-yet-wrong ordering nor a race on a path no script executes. A race report is attributed to the workload in flight (written to a file before it starts). Trusts the Go race detector.",
             "DESIGN.md section 5, C18"),
     "C19": ("fault enumeration + property-based testing with pgregory.net/rapid: every single split point / every read-fault offset / every failing Write-call index enumerated for a fixed set of documents and call sequences, random plans elsewhere; metamorphic oracle (any delivery plan vs whole buffer) and validity oracles (fault reported, sticky, accepted bytes a prefix)",
-            "Fault enumeration: for ~100 fixed documents (hand-written lookahead-hungry texts/binaries + deterministic generator examples) every split point x {EOF alone, EOF with data} x {full, container-skipping traversal}, and a read failure at every byte offset x {alone, with data} x {persistent, one-off} x {whole, byte-at-a-time}; for 40 fixed call sequences x 4 writer configurations a write failure at every Write-call index x {nothing, half accepted} x {persistent, one-off}; plus ~17 000 random (document, plan) / (sequence, fault) cases per quick run including documents straddling bufio's 4096-byte buffer and corrupted documents.",
-            "Faults are injected in the io.Reader / io.Writer the harness hands to ion-go (no hooks). A read plan returns at most one (0,nil) in a row. One-off (transient) faults are part of the fault model: the reader/writer must still report them. Trusts the harness's plan reader / fault writer, rapid, Go.",
+            "Fault enumeration: for ~100 fixed documents (hand-written lookahead-hungry texts/binaries + deterministic generator examples) every split point x {EOF alone, EOF with data} x {full, container-skipping traversal}, and a read failure at every byte offset x {alone, with data} x {persistent, one-off} x {whole, byte-at-a-time} x six error values (a custom error, io.ErrUnexpectedEOF, io.ErrClosedPipe, os.ErrDeadlineExceeded, io.ErrNoProgress, a wrapped one); for 40 fixed call sequences x 4 writer configurations a write failure at every Write-call index x {nothing, half accepted} x {persistent, one-off}; plus ~17 000 random (document, plan) / (sequence, fault) cases per quick run including documents straddling bufio's 4096-byte buffer and corrupted documents.",
+            "Faults are injected in the io.Reader / io.Writer the harness hands to ion-go (no hooks). A read plan returns at most one (0,nil) in a row. Every traversal keeps the slices and pointers the accessors returned and compares them with private copies at the end (a result must not change after further reading). One-off (transient) faults are part of the fault model: the reader/writer must still report them. Trusts the harness's plan reader / fault writer, rapid, Go.",
             "DESIGN.md section 5, C19"),
     "C20": (PBT + " driving the rebuilt ion-go binary as a subprocess; reference-decoder oracle on its output files (values for text / pretty / binary, an event-by-event walk of the input model for events) and a validity oracle (exit status, no panic text, error report entry for invalid input)",
-            "Exploration with an enumerated grid: every type, every typed null and several container / annotation shapes, alone and together, in text and binary x 6 output formats x file input (stdin for every third), plus 400 generated documents per quick run (all types, spelling variety, local symbol tables, 20% invalid from the C07 catalogue) each through all six formats: ~3000 process runs.",
+            "Exploration with an enumerated grid: every type, every typed null and several container / annotation shapes, alone and together, in text and binary x 6 output formats x file input (stdin for every third), plus 400 generated documents (30% of the file-route ones with a second input file; 30% with output on stdout / report on stderr / long option names) per quick run (all types, spelling variety, local symbol tables, 20% invalid from the C07 catalogue) each through all six formats: ~3000 process runs.",
             "Process creation dominates the cost (about 10 ms per run on this sandbox), which bounds the quick tier; inputs whose validity the reference leaves undecided are judged for 'no crash' only. Trusts the reference decoders.",
             "DESIGN.md section 5, C20"),
 }
